@@ -415,6 +415,8 @@ def c09(prop, tier):
 
 
 def c02(prop, tier):
+    import ecs
+    qv, qi, qc = ecs.commit_mask(prop, tier, "qcp-sound")
     curves = ["bn254"] if tier == "quick" else CURVES
     jobs = []
     for c in curves:
@@ -424,6 +426,7 @@ def c02(prop, tier):
         jobs.append(Job("algebra-" + c, "./backend/plonk/" + c, ["prelude_sym.go", "prelude_fr_sym.go", "c02_algebra.go"], dict(plonk_subst(c), CRVNAME=c)))
     return run_property(prop, tier, jobs,
                         expect_reach={"verifHarness_plonkVerifyAlgebra": ["accept", "reject", "algebra-checked"]},
+                        extra_violations=qv, extra_inconclusive=qi, extra_coverage=qc,
                         title="C02 (verifier shape + algebra + key structure): the real PLONK Verify in the algebra model with symbolic challenges, claimed values, public inputs, generator, coset shift (n = 4, 0..2 public inputs, 0..1 BSB22 commitment): accept => the challenges are derived from the prescribed proof elements in order, claimed[0] = -(PI(zeta) + alpha(l+beta s1+gamma)(r+beta s2+gamma)(o+gamma) zu - alpha^2 L1(zeta)) with PI = sum w_i L_i + sum H(cmt_j) L_{nbPublic+cci_j}, the linearised digest is the prescribed combination of commitments, and the openings are checked at zeta / w zeta in the order of the claimed values. PLONK Verify accepts only structurally complete proofs for every shape within the bounds; buildPermutation's cycles are exactly the classes of equal wires for every symbolic wiring (public placeholder and padding rows included); NewTrace (what Setup commits to): selector columns hold exactly the gates' coefficients (public rows -1,0,0,0,0; padding 0), Qcp is the indicator of the committed constraints, S1..S3 are the support u^c w^r read through S, for systems with 0..2 public inputs, 0..2 gates with symbolic wires and coefficient ids, an optional hint instruction, 0..1 commitment, domain size 4 with symbolic generator and shift (algebra model).",
                         design_ref="DESIGN.md §3 C02",
                         assumptions=["Setup invariants on the key", "opaque crypto stubs with gnark-crypto's length contracts"],
